@@ -428,7 +428,7 @@ impl Case {
         for c in cfg.iter_mut() {
             *c = next(&mut i);
         }
-        let nt = (next(&mut i) % 7) as usize;
+        let nt = (next(&mut i) % 8) as usize;
         let mut threads = Vec::new();
         for _ in 0..nt {
             let n = (next(&mut i) % 9) as usize;
